@@ -22,6 +22,7 @@ import YtkProofs.ResolverSem
 import YtkProofs.ResolverTerm
 import YtkProofs.ResolverDiverge
 import YtkProofs.ResolverEval
+import YtkProofs.ResolverNested
 
 namespace Ytk.C11
 open Ytk.Resolver
@@ -330,6 +331,116 @@ theorem evalT_idempotent_partial {tt : TTable} (hT : tt.WF) (n : Nat) (t : Tmpl)
     (ht : t.WF) {out : Toks} (h : evalT tt n t st = .ok out) :
     Resolves id (toTable tt) out st (.ok out) :=
   ((evalT_refines hT n t st _ ht h (by simp)).2 out rfl).resolves
+
+/-! ## nested keys: agreement with the recursive-descent evaluator (YtkProofs/ResolverNested.lean)
+
+  `Tmpl2` is the AST of the FULL grammar (`done | lit text rest | ph key rest | phd key default rest`
+  where `key` and `default` are templates again: `${a${b}}`, `${${k}:dflt}`; literal text is free of
+  prefix / suffix tokens but may contain separators), `render2` its token list, `evalT2` the
+  reference semantics read off the Go code: the key template is evaluated (and then the default,
+  both with the placeholder's ORIGINAL text on the stack), the evaluated key text is looked up;
+  known → evaluated value; unknown → evaluated default, else the placeholder stays verbatim in its
+  original form; circular iff the placeholder's original text is being expanded.
+  Table: keys are separator-free token lists, values are templates (`TTable2.WF`).
+
+  FULL (unconditional) statement — FALSE, see `nested_needs_sepfree_counterexample`:
+
+      ∀ tt n t st, tt.WF → t.WF → evalT2 tt n t st ≠ .outOfFuel →
+        Resolves id (toTable2 tt) (render2 t) st (evalT2 tt n t st)
+
+  The resolver splits the RESOLVED placeholder text at its FIRST separator; a separator that comes
+  out of a substituted value (or of literal key text, or of a verbatim block) in key position moves
+  the split away from the one in the AST.  Hypothesis that makes it true (`keySafe tt n t st`,
+  a decidable Boolean with the recursion of `evalT2`): every key text that this run evaluates and
+  looks up is separator-free.  Nothing is required of prefix / suffix tokens in key texts (verbatim
+  blocks of unknown inner keys are fine), nothing of values that never reach a key position, and
+  nothing of the parts of the template that the run does not execute. -/
+
+/-- `resolve_refines_evalT`, nested keys: whenever the reference evaluator ends — with a text or
+    with a circular reference — on a run whose evaluated key texts are separator-free, the resolver
+    ends with the SAME result on the rendered template (for every fuel from some point on, for
+    every stack). -/
+theorem resolve_refines_evalT_nested_partial {tt : TTable2} (hT : tt.WF) (n : Nat) (t : Tmpl2)
+    (st : List Toks) (ht : t.WF) (h : evalT2 tt n t st ≠ .outOfFuel) (hk : keySafe tt n t st = true) :
+    ∃ k, ∀ m, k ≤ m → resolve id m (toTable2 tt) (render2 t) st = evalT2 tt n t st :=
+  (evalT2_refines hT n t st _ ht rfl h hk).1.fuel
+
+/-- same string, or both circular (with the same text) -/
+theorem resolve_refines_evalT_nested_cases_partial {tt : TTable2} (hT : tt.WF) (n : Nat) (t : Tmpl2)
+    (st : List Toks) (ht : t.WF) (hk : keySafe tt n t st = true) :
+    (∀ out, evalT2 tt n t st = .ok out → Resolves id (toTable2 tt) (render2 t) st (.ok out)) ∧
+    (∀ o, evalT2 tt n t st = .cycle o → Resolves id (toTable2 tt) (render2 t) st (.cycle o)) :=
+  ⟨fun _ e => (evalT2_refines hT n t st _ ht e (by simp) hk).1,
+   fun _ e => (evalT2_refines hT n t st _ ht e (by simp) hk).1⟩
+
+/-- the evaluated text of a template contains nothing a further scan would change (verbatim
+    blocks `${a${b}}` of unknown keys included: they are re-evaluated to themselves) -/
+theorem evalT2_idempotent_partial {tt : TTable2} (hT : tt.WF) (n : Nat) (t : Tmpl2) (st : List Toks)
+    (ht : t.WF) (hk : keySafe tt n t st = true) {out : Toks} (h : evalT2 tt n t st = .ok out) :
+    Resolves id (toTable2 tt) out st (.ok out) :=
+  ((evalT2_refines hT n t st _ ht h (by simp) hk).2 out rfl).2
+
+/-- a genuinely nested key: `${a${b}}` with b = `1`, a1 = `x`  →  `x` (hypotheses satisfied, the
+    evaluator and the resolver agree) -/
+theorem nonvacuous_nested :
+    let tt : TTable2 := [([.ch 'b'], .lit [.ch '1'] .done), ([.ch 'a', .ch '1'], .lit [.ch 'x'] .done)]
+    let t : Tmpl2 := .ph (.lit tA (.ph (.lit [.ch 'b'] .done) .done)) .done
+    tt.WF ∧ t.WF ∧ keySafe tt 10 t [] = true ∧
+    render2 t = [.pre, .ch 'a', .pre, .ch 'b', .suf, .suf] ∧
+    evalT2 tt 10 t [] = .ok [.ch 'x'] ∧
+    resolveTop id 10 (toTable2 tt) (render2 t) = .ok [.ch 'x'] := by
+  decide
+
+/-- nested keys with defaults, known and unknown, and a verbatim nested block:
+    `${${k}:d${b}}|${a${b}:z:z}|${q${b}}|${a${u}:${b}}` with b = `1`, a1 = `x:y` (a value with a
+    separator, NOT in key position), k = `u`  →  `d1|x:y|${q${b}}|1` -/
+theorem nonvacuous_nested_default :
+    let tt : TTable2 := [([.ch 'b'], .lit [.ch '1'] .done),
+      ([.ch 'a', .ch '1'], .lit [.ch 'x', .sep, .ch 'y'] .done), ([.ch 'k'], .lit [.ch 'u'] .done)]
+    let phB : Tmpl2 := .ph (.lit [.ch 'b'] .done) .done
+    let t : Tmpl2 :=
+      .phd (.ph (.lit [.ch 'k'] .done) .done) (.lit [.ch 'd'] phB)
+        (.lit [.ch '|'] (.phd (.lit tA phB) (.lit [.ch 'z', .sep, .ch 'z'] .done)
+          (.lit [.ch '|'] (.ph (.lit [.ch 'q'] phB)
+            (.lit [.ch '|'] (.phd (.lit tA (.ph (.lit [.ch 'u'] .done) .done)) phB .done))))))
+    tt.WF ∧ t.WF ∧ keySafe tt 12 t [] = true ∧
+    evalT2 tt 12 t [] = .ok [.ch 'd', .ch '1', .ch '|', .ch 'x', .sep, .ch 'y', .ch '|',
+      .pre, .ch 'q', .pre, .ch 'b', .suf, .suf, .ch '|', .ch '1'] ∧
+    resolveTop id 12 (toTable2 tt) (render2 t) = evalT2 tt 12 t [] := by
+  decide
+
+/-- … and a circular one through a nested key: a1 = `${a${b}}`, b = `1` -/
+theorem nonvacuous_nested_cycle :
+    let t : Tmpl2 := .ph (.lit tA (.ph (.lit [.ch 'b'] .done) .done)) .done
+    let tt : TTable2 := [([.ch 'b'], .lit [.ch '1'] .done), ([.ch 'a', .ch '1'], t)]
+    tt.WF ∧ t.WF ∧ keySafe tt 10 t [] = true ∧
+    evalT2 tt 10 t [] = .cycle [.ch 'a', .pre, .ch 'b', .suf] ∧
+    resolveTop id 10 (toTable2 tt) (render2 t) = .cycle [.ch 'a', .pre, .ch 'b', .suf] := by
+  decide
+
+/-- WHY the hypothesis is needed: `${${a}}` with a = `k:z`.  The AST says: the key `${a}` evaluates
+    to the text `k:z`, which is unknown, and the placeholder has no default → verbatim `${${a}}`.
+    The resolver splits the resolved text `k:z` at its separator: key `k` unknown, default `z`. -/
+theorem nested_needs_sepfree_counterexample :
+    let tt : TTable2 := [(tA, .lit [.ch 'k', .sep, .ch 'z'] .done)]
+    let t : Tmpl2 := .ph (.ph (.lit tA .done) .done) .done
+    tt.WF ∧ t.WF ∧ keySafe tt 10 t [] = false ∧
+    evalT2 tt 10 t [] = .ok [.pre, .pre, .ch 'a', .suf, .suf] ∧
+    resolveTop id 10 (toTable2 tt) (render2 t) = .ok [.ch 'z'] := by
+  decide
+
+/-- hence the unconditional statement is refuted -/
+theorem resolve_refines_evalT_nested_unconditional_refuted :
+    ¬ ∀ (tt : TTable2) (n : Nat) (t : Tmpl2) (st : List Toks), tt.WF → t.WF →
+        evalT2 tt n t st ≠ .outOfFuel → Resolves id (toTable2 tt) (render2 t) st (evalT2 tt n t st) := by
+  intro h
+  have h₁ := h [(tA, .lit [.ch 'k', .sep, .ch 'z'] .done)] 10 (.ph (.ph (.lit tA .done) .done) .done) []
+    (by decide) (by decide) (by decide)
+  have h₂ : Resolves id (toTable2 [(tA, .lit [.ch 'k', .sep, .ch 'z'] .done)])
+      (render2 (.ph (.ph (.lit tA .done) .done) .done)) [] (.ok [.ch 'z']) := ⟨10, by decide, by simp⟩
+  have := h₁.unique h₂
+  revert this
+  decide
 
 /-! ## Non-vacuity and witnesses (norm = id) -/
 
